@@ -349,6 +349,41 @@ type execResult struct {
 	steps    int
 	preempt  int
 	trace    []sched.Step
+	copyBad  []string
+}
+
+// copyInconsistency compares the raw tables of a (private) copy with the
+// answers of its API for the names bound in those tables.
+func copyInconsistency(c *env.Env) string {
+	vm, tm := c.VerifRaw()
+	for name, rv := range vm {
+		got, err := c.Get(name)
+		if err != nil {
+			return fmt.Sprintf("the copy's table binds value %q but Get fails: %v", name, err)
+		}
+		if rv.Kind() == reflect.Int64 {
+			if g, ok := got.(int64); !ok || g != rv.Int() {
+				return fmt.Sprintf("the copy's table binds %q=%d but Get yields %v", name, rv.Int(), got)
+			}
+		}
+	}
+	syms := c.GetValueSymbols()
+	if len(syms) != len(vm) {
+		return fmt.Sprintf("the copy's table holds %d values but GetValueSymbols lists %d", len(vm), len(syms))
+	}
+	for name, rt := range tm {
+		got, err := c.Type(name)
+		if err != nil {
+			return fmt.Sprintf("the copy's table binds type %q but Type fails: %v", name, err)
+		}
+		if got != rt {
+			return fmt.Sprintf("the copy's table binds type %q=%v but Type yields %v", name, rt, got)
+		}
+	}
+	if ts := c.GetTypeSymbols(); len(ts) != len(tm) {
+		return fmt.Sprintf("the copy's table holds %d types but GetTypeSymbols lists %d", len(tm), len(ts))
+	}
+	return ""
 }
 
 func cell(v int64) reflect.Value {
@@ -503,6 +538,11 @@ func runOnce(sc scenario, ch sched.Chooser, record bool) execResult {
 			if c, ok := copies[[2]int{ti, oi}]; ok && c != nil {
 				v, t := dumpEnv(c)
 				hist[ti][oi].Out = "v{" + v + "}t{" + t + "}"
+				// a copy is a consistent snapshot: what its own tables hold must be
+				// what its API answers (the copy is private: checked after the run)
+				if d := copyInconsistency(c); d != "" {
+					res.copyBad = append(res.copyBad, fmt.Sprintf("T%d op %d: %s", ti, oi, d))
+				}
 			}
 		}
 		res.hist = append(res.hist, hist[ti]...)
@@ -556,7 +596,7 @@ func run(c *common.Ctx) *common.Result {
 					// replay the recorded schedule on fresh scopes before trusting the failure
 					r2 := &explore.Run{Prefix: choices}
 					x2 := runOnce(sc, r2, false)
-					if r2.Err == nil && x2.verdict == x.verdict && x2.panicked == x.panicked && fmt.Sprint(x2.lockset) == fmt.Sprint(x.lockset) && histString(x2.hist) == histString(x.hist) {
+					if r2.Err == nil && x2.verdict == x.verdict && x2.panicked == x.panicked && fmt.Sprint(x2.lockset) == fmt.Sprint(x.lockset) && fmt.Sprint(x2.copyBad) == fmt.Sprint(x.copyBad) && histString(x2.hist) == histString(x.hist) {
 						confirmed = 1
 					} else {
 						confirmed = -1
@@ -573,6 +613,9 @@ func run(c *common.Ctx) *common.Result {
 			}
 			if x.panicked != "" {
 				report("panic", x.panicked)
+			}
+			for _, d := range x.copyBad {
+				report("copy-inconsistent", d)
 			}
 			for _, v := range x.lockset {
 				// class carries the site so that a different unguarded access is a different finding
@@ -661,7 +704,7 @@ func replay(c *common.Ctx, path string) int {
 			fmt.Println("replay diverged:", r.Err)
 			return 2
 		}
-		desc := fmt.Sprintf("verdict=%s lockset=%v panic=%q history=%s", x.verdict, x.lockset, x.panicked, histString(x.hist))
+		desc := fmt.Sprintf("verdict=%s lockset=%v panic=%q copy=%v history=%s", x.verdict, x.lockset, x.panicked, x.copyBad, histString(x.hist))
 		if round == 0 {
 			first = desc
 			fmt.Println("scenario:", rd.Scenario.String())
@@ -671,7 +714,7 @@ func replay(c *common.Ctx, path string) int {
 			fmt.Println(desc)
 			lin := x.verdict == sched.OK && linearizable(x.hist, initState(rd.Scenario.Cfg))
 			fmt.Println("linearizable:", lin)
-			bad = x.verdict != sched.OK || len(x.lockset) > 0 || x.panicked != "" || !lin
+			bad = x.verdict != sched.OK || len(x.lockset) > 0 || x.panicked != "" || len(x.copyBad) > 0 || !lin
 		} else if desc != first {
 			fmt.Println("NONDETERMINISTIC replay")
 			return 2
